@@ -35,14 +35,17 @@ let failing (m : monitors) : string =
       (m.mo_fin, "start-finish-bracket"); (m.mo_bound, "concurrency<=laneSize");
       (m.mo_pending, "0<=pending<=laneSize*(queueSize+1)"); (m.mo_lastpanic, "lastpanic-is-a-raised-panic");
       (m.mo_after_wait, "nothing-running-at-or-started-after-Wait"); (m.mo_leak, "no-goroutine-left(Z=0)");
-      (m.mo_after_cancel, "push-after-cancel-gets-ctx-error") ])
+      (m.mo_after_cancel, "push-after-cancel-gets-ctx-error");
+      (m.mo_pending_after_wait, "pending-after-Wait=accepted-minus-started");
+      (m.mo_push_returns, "every-PushTask-call-returns");
+      (m.mo_obs_ids, "status-call-ids-wellformed") ])
 
 let () =
   let fuel = if Array.length Sys.argv > 2 && Sys.argv.(2) <> "--compare-unreduced" then int_of_string Sys.argv.(2) else 20000 in
   let compare = Array.exists (fun a -> a = "--compare-unreduced") Sys.argv in
   let fuel_n = nat_of_int fuel in
   let cases = ref 0 and specfail = ref 0 and mismatch = ref 0 and accepted = ref 0 and fuel_out = ref 0
-  and monitor_only = ref 0 and max_belief = ref 0 and events = ref 0 and malformed = ref 0 and redux_diff = ref 0 and both_rej = ref 0
+  and monitor_only = ref 0 and max_belief = ref 0 and events = ref 0 and malformed = ref 0 and redux_diff = ref 0 and both_rej = ref 0 and compared = ref 0 and cmp_undecided = ref 0 and thorough = ref false
   and sum_belief = ref 0 in
   iter_lines Sys.argv.(1) (fun line ->
     match split_ws line with
@@ -54,12 +57,17 @@ let () =
           events := !events + List.length evl;
           let nn = nat_of_int n and qn = nat_of_int q in
           let m = run_monitors nn qn evl in
-          if compare && tag <> "M" && monitors_ok m then begin
-            let a = accept_history nn qn fuel_n true evl and b = accept_history nn qn fuel_n false evl in
+          if (compare || (!thorough && tag = "HS" && !compared < 400)) && tag <> "M" && monitors_ok m then begin
+            incr compared;
+            let big = nat_of_int 60000 in
+            let a = accept_history nn qn big true evl and b = accept_history_plain nn qn big evl in
             let cls = function Accepted _ -> 0 | Rejected _ -> 1 | FuelOut _ -> 2 in
             let idx = function Rejected (i, _) -> int_of_nat i | _ -> -1 in
             if cls a = 1 && cls b = 1 then incr both_rej;
-            if cls a <> 2 && cls b <> 2 && (cls a <> cls b || idx a <> idx b) then begin incr redux_diff; Printf.printf "REDUXDIFF %d/%d %d/%d %s\n" (cls a) (idx a) (cls b) (idx b) line end
+            if cls a = 2 || cls b = 2 then incr cmp_undecided
+            else if cls a <> cls b || idx a <> idx b then begin
+              incr redux_diff;
+              Printf.printf "MISMATCH %s ## reduced-and-plain-acceptor-disagree reduced=%d/%d plain=%d/%d\nDRIFT %s\n" line (cls a) (idx a) (cls b) (idx b) line end
           end;
           if not (monitors_ok m) then begin
             incr specfail;
@@ -84,9 +92,13 @@ let () =
           (* a token outside the format (e.g. a negative PendingTask): the implementation's output is not a legal observation *)
           incr specfail; incr malformed;
           Printf.printf "SPECFAIL %s ## malformed-or-negative-field=%s\nDRIFT %s\n" line tok line)
+    | ["TIER"; "thorough"] -> thorough := true
     | _ -> ());
+  let decided_or_not = !cases - !monitor_only - !specfail in
+  if !fuel_out * 20 > decided_or_not && !fuel_out > 2 then
+    Printf.printf "MISMATCH tie-degraded: the acceptor ran out of fuel on %d of %d histories (> 5%%): the model no longer decides the observed histories\n" !fuel_out decided_or_not;
   if !accepted = 0 && !fuel_out > 0 then
     Printf.printf "MISMATCH (no history could be decided by the acceptor: %d ran out of fuel)\n" !fuel_out;
   Printf.printf "STATS cases=%d specfail=%d mismatch=%d drift=0 accepted=%d fuel_exhausted=%d monitor_only=%d max_belief=%d avg_belief=%d events=%d malformed=%d%s\n"
     !cases !specfail !mismatch !accepted !fuel_out !monitor_only !max_belief (if !accepted > 0 then !sum_belief / !accepted else 0) !events !malformed
-    (if compare then Printf.sprintf " reduction_disagreements=%d both_rejected=%d" !redux_diff !both_rej else "")
+    (if !compared > 0 then Printf.sprintf " compared_with_plain_acceptor=%d reduction_disagreements=%d both_rejected=%d compare_undecided=%d" !compared !redux_diff !both_rej !cmp_undecided else "")
